@@ -212,6 +212,9 @@ def run(ctx: Ctx):
         inner_stmts = {id(s) for s in ast.walk(inner)}
         vert = [o for o in ops if o[0] == kinds and o[1] in ("up", "down")]
         ctx.ob("C07-O1", "R15 INVERSE-PAIR", f, "vertical links and size change happen in the inner (row) walk on the walked node", all(id(o[4]) in inner_stmts and o[3] == _loops(f.node)[0][0] or id(o[4]) in inner_stmts for o in vert) and all(id(o[2]) in inner_stmts for o in ops if o[0] == "size"), "", node=inner)
+        walker = [l for l in _loops(f.node) if l[1] in ("right", "left")][0][0]
+        sizes = [n for n in ast.walk(inner) if isinstance(n, ast.AugAssign) and isinstance(n.target, ast.Attribute) and n.target.attr == "size"]
+        ctx.ob("C07-O1", "R15 INVERSE-PAIR", f, "the size that changes is that of the column the walked node hangs in (`<walked node>.column.size`)", bool(sizes) and all(ast.unparse(n.target) == f"{walker}.column.size" for n in sizes), f"{[ast.unparse(n.target) for n in sizes]} in the walk of `{walker}`: counting on another node's column leaves the counters of the columns that do lose (or regain) a node wrong after the first cover / uncover pair - a column that still has rows reads 0, the search takes it for a dead end, and covers are missed", node=sizes[0] if sizes else f.node)
 
     # ---- O2 pairing in search
     cfg = cfg_of(search.node)
@@ -596,7 +599,12 @@ def _v_cover_skips_empty_column(tree):
     M.insert(g, "node = col.down", "if col.size < 1:\n    return")
 
 
+def _v_cover_counts_on_the_column_node(tree):
+    g = M.find_func(tree, "_cover")
+    M.replace_stmt(g, lambda s: M.src_is(s, "row_node.column.size -= 1"), M.stmts("node.column.size -= 1"))
+
 VARIANTS = [
+    M.Variant("_cover decrements the size of the covered column's own node instead of the walked node's column (seed C07-Y)", DLX, _v_cover_counts_on_the_column_node, "C07-O1"),
     M.Variant("an empty names list makes the builder decline: OPTIMAL with the empty selection for a matrix that has columns (seed C07-W)", DLX, _v_builder_declines_for_empty_names, "C07-O6"),
     M.Variant("Result.__post_init__ relabels an OPTIMAL answer with an empty solution as INFEASIBLE (seed C07-U)", "solvor/types.py", _v_result_post_init, "C07-G7"),
     M.Variant("secondary columns are not counted in their header's size (half of seed C07-V)", DLX, _v_secondary_sizes_not_counted, "C07-O1"),
